@@ -30,6 +30,8 @@ MUTANTS = [
                     col = match.end()""", """                            prev_end_pos, new_end_pos,
                         )
                     col = match.end()""")], "note": "end-of-input token then uses a stale position"},
+    {"id": "c04-splitlines-tokenizer-only", "expect": "fire", "edits": [(L, "                (t.rstrip() for t in text.split('\\n')),", "                (t.rstrip() for t in text.splitlines()),")]},
+    {"id": "c04-strip-lines", "expect": "fire", "edits": [(L, "                (t.rstrip() for t in text.split('\\n')),", "                (t.strip() for t in text.split('\\n')),")]},
     # neutral
     {"id": "c04-n-fresh-start", "expect": "silent", "edits": [(L, """                        if prev_end_pos.coords != (line_id, col + 1):
                             prev_end_pos = SrcPos(src_name, line_id, col + 1)
